@@ -52,6 +52,25 @@ def one_case(run, specs, t, gamma, pts, alpha, beta):
     return ok
 
 
+def representation_cases(run):
+    """the same points / density matrix passed as other kinds of ndarray (Fortran order, strided view, read-only, int64, float32)"""
+    from gbasis.evals import stress_tensor as ST
+    rng = run.rng
+    cs = []
+    specs = [rand_shell(rng, l, cs, nprim=1 + l, nseg=1, exp_hi=5.0) for l in (0, 1)]
+    basis = make_basis(specs)
+    n = sum(s.size for s in specs)
+    pts = np.array([[0.0, 1.0, -1.0], [2.0, 0.0, 1.0]])
+    g = np.eye(n) * 2.0
+    g[0, n - 1] = g[n - 1, 0] = 1.0
+    rep = {"basis": core.describe_basis(specs), "points": pts.tolist(), "gamma": g.tolist()}
+    for name, f in (("evaluate_stress_tensor", lambda d, p: ST.evaluate_stress_tensor(d, basis, p, alpha=0.5, beta=1.0)),
+                    ("evaluate_ehrenfest_force", lambda d, p: ST.evaluate_ehrenfest_force(d, basis, p, alpha=0.25, beta=0.5)),
+                    ("evaluate_ehrenfest_hessian", lambda d, p: ST.evaluate_ehrenfest_hessian(d, basis, p, alpha=1.0, beta=0.5, symmetric=True))):
+        repr_case(run, name, "points", lambda p, f=f: f(g, p), pts, rep)
+        repr_case(run, name, "one_density_matrix", lambda d, f=f: f(d, pts), g, rep)
+
+
 def check(run):
     rng = run.rng
     quick = run.tier == "quick"
@@ -66,10 +85,14 @@ def check(run):
         gamma = random_symmetric(rng, m, psd=(n % 2 == 0))
         pts = np.array([[core.snap(rng.uniform(-2, 2), 10) for _ in range(3)] for _ in range(rng.randint(1, 4 if quick else 20))])
         one_case(run, specs, t, gamma, pts, a, b)
+    representation_cases(run)
 
 
 def replay(run, rep):
     n0 = len(run.violations)
+    if rep.get("case") == "representation":
+        representation_cases(run)
+        return len(run.violations) == n0
     t = None if rep.get("transform") is None else np.array(rep["transform"])
     one_case(run, specs_from(rep), t, np.array(rep["gamma"]), np.array(rep["points"]), rep["alpha"], rep["beta"])
     return len(run.violations) == n0
